@@ -385,6 +385,7 @@ def install(reg):
             return memo[id(v)]
         if isinstance(v, SObj):
             o = SObj(v.cls, owner="call")
+            o.handbuilt = v.handbuilt
             memo[id(v)] = o
             itp.allocs.append(o)
             for kk, vv in v.fields.items():
